@@ -167,3 +167,29 @@ package mux
 //@   callsite (mellium.im/xmpp/mux.IQHandler).HandleIQ#1
 //@     after: handled = true
 //@   ensures[C07] parsed && isStart && (tokErr == nil || tokErr == io.EOF) ==> handled
+
+// C14: the entry points hand the element on unchanged. HandleXMPP dispatches on
+// the element's own name through Handler; the message and presence routers
+// parse exactly the start element they were given and route its children with
+// the parsed stanza, the same reader and the same start element.
+//@ func (*ServeMux).HandleXMPP
+//@   ghost h0 xmpp.Handler
+//@   callsite (*ServeMux).Handler#1
+//@     assert[C14] arg0 == m && arg1 == start.Name
+//@     after: h0 = ret0
+//@   callsite (mellium.im/xmpp.Handler).HandleXMPP#1
+//@     assert[C14] arg0 == h0 && arg1 == t && arg2 == start
+//@ func (*ServeMux).msgRouter
+//@   ghost parsed stanza.Message
+//@   callsite mellium.im/xmpp/stanza.NewMessage#1
+//@     assert[C14] arg0 == *start
+//@     after: parsed = ret0
+//@   callsite forChildren#1
+//@     assert[C14] arg0 == m && typeof(arg1) == stanza.Message && arg1.(stanza.Message) == parsed && arg2 == t && arg3 == start
+//@ func (*ServeMux).presenceRouter
+//@   ghost parsed stanza.Presence
+//@   callsite mellium.im/xmpp/stanza.NewPresence#1
+//@     assert[C14] arg0 == *start
+//@     after: parsed = ret0
+//@   callsite forChildren#1
+//@     assert[C14] arg0 == m && typeof(arg1) == stanza.Presence && arg1.(stanza.Presence) == parsed && arg2 == t && arg3 == start
